@@ -747,7 +747,7 @@ func Run(tier string) int {
 	res.Sample(map[string]any{"path": []string{"schedule=lock[20:4000]-vest[10:4000]", "time(+11)", "delegate-precompile(max)", "eth-contract-forward(sp+1)"}})
 	return engine.Finish(res, engine.Meta{
 		Property: Prop, Tier: tier, Level: "model_checking", Start: start,
-		Rule:   "per schedule fixture: all sequences <= depth over 36 spend operations (9 paths x {1, spendable, spendable+1, balance}), 9 delegations (message / authz exec / staking precompile x {1, max, max+1}), undelegate, a partly vested second grant with automatic staking, conversion back to a plain account, block boundary (unbonding completion), slash, clawback, 7 time jumps; every transaction through the real DeliverTx; non-trivial = operation that moved coins, distinct by (schedule, path, amount class, time)",
+		Rule:   "per schedule fixture: all sequences <= depth over 36 spend operations (9 paths x {1, spendable, spendable+1, balance}), 9 delegations (message / authz exec / staking precompile x {1, max, max+1}), undelegate, a partly vested second grant with automatic staking, conversion back to a plain account, liquidation of half of the locked coins (the model keeps the original unlock times), block boundary (unbonding completion), slash, clawback, 7 time jumps; every transaction through the real DeliverTx; plus a two-denomination fixture (lockup and vesting in opposite order per denomination) with a per-denomination locked reference; non-trivial = operation that moved coins, distinct by (schedule, path, amount class, time)",
 		Bounds: map[string]any{"depth": depth, "schedules": len(schedules(tier))},
 		Assumptions: []string{
 			"reference = step functions from the grant parameters; tracked delegation read from the account but bounded by the reference's own delegation counter",
